@@ -53,6 +53,27 @@ def restore_registry():
     ecdsa.util.os = os
     ecdsa.keys.os = os
     bf3file.__dict__.pop("open", None)
+    if isinstance(bf3file.__dict__.get("os"), _FsOsMarker):
+        bf3file.__dict__.pop("os", None) if not _BF3_HAD_OS else setattr(bf3file, "os", os)
+
+
+class _FsOsMarker:
+    """wraps a SimFS os shim so that restore_registry can recognise and remove it"""
+
+    def __init__(self, shim):
+        self._shim = shim
+
+    def __getattr__(self, name):
+        return getattr(self._shim, name)
+
+
+_BF3_HAD_OS = "os" in bf3file.__dict__
+
+
+def use_fs(fs):
+    """point the file seams of bec2format.bf3file at a SimFS: builtins.open and (when the module uses it) os"""
+    bf3file.open = fs.open
+    bf3file.os = _FsOsMarker(fs.os_shim())
 
 
 class OsShim:
@@ -130,7 +151,7 @@ def reset_globals():
                     continue
                 for extra in set(vars(ow)) - base:
                     v = vars(ow)[extra]
-                    if extra == "open" or isinstance(v, (_types.FunctionType, type, _types.ModuleType)):
+                    if extra in ("open", "os") or isinstance(v, (_types.FunctionType, type, _types.ModuleType)):
                         continue
                     try:
                         delattr(ow, extra)
